@@ -23,6 +23,10 @@ def pool():
     P += [T.UAByteString(b"abc"), T.UAByteString(b"\x00\xff"), T.UAByteString(b""), T.UAByteString(None)]
     P += [T.UAXMLElement("<a/>"), T.UAXMLElement("<b>x</b>")]
     P += [T.UANodeId(0, "i", "85"), T.UANodeId(1, "i", "85"), T.UANodeId(1, "s", "85"), T.UANodeId(12, "s", "ns=1;x"), T.UANodeId(2, "g", "abc"), T.UANodeId(0, "b", "QUJD")]
+    # the same NodeIds in the other accepted spellings of the identifier type (enum member, position number): equal values, so equal hashes
+    P += [T.UANodeId(1, T.NodeIdType.NUMERIC, "85"), T.UANodeId(1, 0, "85"), T.UANodeId(1, T.NodeIdType.STRING, "85"), T.UANodeId(1, 1, "85"),
+          T.UANodeId(2, T.NodeIdType.GUID, "abc"), T.UANodeId(0, T.NodeIdType.OPAQUE, "QUJD"), T.UANodeId(0, 3, "QUJD"),
+          T.UAVariant(T.UANodeId(1, T.NodeIdType.NUMERIC, "85")), T.UAVariant(T.UANodeId(1, "i", "85"))]
     P += [T.UAQualifiedName(0, "n"), T.UAQualifiedName(1, "n"), T.UAQualifiedName(1, "m")]
     P += [T.UALocalizedText("t", "en"), T.UALocalizedText("t", NA), T.UALocalizedText(NA, "en"), T.UALocalizedText(NA, NA), T.UALocalizedText("u", "en")]
     P += [T.UAVariant(T.UAInt32(5)), T.UAVariant(T.UAString("a")), T.UAVariant(NA)]
